@@ -1,6 +1,7 @@
 mod c48;
 mod c49;
 mod c50;
+mod c50b;
 mod c51;
 mod util;
 
